@@ -73,13 +73,16 @@ structure Quirks where
   /-- C04-F8: a synchronous child execution that ends hands its result to the parent's pending request by a call;
   when the parent's Task has not registered its request again nothing keeps the result -/
   childAnswerInProcess : Bool := false
+  /-- C04-F9: that a fan-out attempt has failed (its failure was retried or caught) is only in the engine's memory: after a
+  crash what is left of its branches is taken up again, and a late failure among them fails the fan-out state a second time -/
+  attemptFailureForgotten : Bool := false
   deriving Repr, DecidableEq
 
 def Quirks.none : Quirks := {}
 /-- the engine as it is (the open findings) -/
 def Quirks.engine : Quirks :=
   { requestFromTimer := true, replyAckedBeforeJoin := true, nestedJoinAcksEarly := true, batchRelaunched := true,
-    childAnswerInProcess := true }
+    childAnswerInProcess := true, attemptFailureForgotten := true }
 
 /-- where a branch reports to: the join, its slot, the join's width, the branches (for later batches) and
 what follows the fan-out state -/
@@ -118,8 +121,12 @@ structure Join where
   /-- (slot, event): the events held for the branches, in slot order (the order in which they are acknowledged) -/
   heldEv : List (Nat × Nat) := []
   heldRp : List Nat := []
-  /-- the fan-out attempt has failed (and the failure was dealt with): what is left of its branches is dropped -/
+  /-- the engine's record that the fan-out attempt is over (`"terminated"`): it has failed, or an event of one of its
+  branches was dropped; what is left of its branches is dropped, what its branches still deliver is absorbed -/
   dead : Bool := false
+  /-- the execution has ended and the engine has kept its records of the attempts (something was still outstanding): whatever
+  event of the execution arrives now is dropped -/
+  ended : Bool := false
   deriving Repr, DecidableEq
 
 structure Cfg where
@@ -138,6 +145,11 @@ structure Cfg where
   batches : List (Nat × Nat) := []
   /-- the run has left the paths the skeleton describes -/
   diverged : Bool := false
+  /-- terminal notifications of a failed execution -/
+  failed : Nat := 0
+  /-- the fan-out attempts on record as failed (crash-safe protocol: written together with the publication of what follows
+  the failure) -/
+  deadJ : List Nat := []
   -- volatile
   timers : List Nat := []
   pending : List Nat := []
@@ -154,6 +166,11 @@ inductive Act where
   /-- the answer of a child execution that has ended, as a message of the reply queue (crash-safe protocol) -/
   | pubAns (corr : Nat)
   | note (terminal : Bool)
+  /-- the terminal notification of an execution that failed -/
+  | fnote
+  /-- what follows a failure that a fan-out state retries / catches, published together with the record that the attempts
+  `dead` are over (crash-safe protocol) -/
+  | pubDead (k : EvKind) (dead : List Nat)
   /-- a notification of a child execution -/
   | cnote (terminal : Bool)
   | ackEv (id : Nat)
@@ -176,6 +193,9 @@ def Cfg.act (c : Cfg) : Act → Cfg
                                    evq := c.evq ++ [{ id := c.nextId, kind := .visit sub [] true (some corr) }] }
   | .pubAns corr => { c with rpq := c.rpq ++ [{ corr := corr }] }
   | .note true => { c with notes := c.notes + 1 }
+  | .fnote => { c with notes := c.notes + 1, failed := c.failed + 1 }
+  | .pubDead k dead => { c with evq := c.evq ++ [{ id := c.nextId, kind := k }], nextId := c.nextId + 1,
+                                batches := c.batches ++ batchKey k, deadJ := c.deadJ ++ dead }
   | .note false => { c with running := c.running + 1 }
   | .cnote _ => { c with cnotes := c.cnotes + 1 }
   | .ackEv id => { c with evq := c.evq.filter (fun m => !(m.id == id && m.unacked)) }
@@ -261,33 +281,100 @@ def insertBySlot (m : QEv) : List QEv → List QEv
   | [] => [m]
   | x :: xs => if slotLe x m then x :: insertBySlot m xs else m :: x :: xs
 
-/-- A failure ends the execution (or a fan-out attempt: `scope` = the joins that fail): the other events the engine
-still holds for it are acknowledged.  The code walks the joins in the order they were made and their slots in order, and
-cancels the Tasks that are still waiting; a cancellation reports back at once, and when it is the first failure its join
-sees it first tidies up everything else (recursively) and acknowledges its own event afterwards.  So: the events of the
-joins that already failed (those around the failing visit) and of later cancellations in slot order, then the
-first-cancelled ones, last first. -/
-def failAcks (c : Cfg) (v : Vol) (corr : Nat) (xstack : List Frame) (owner : Option Nat) (scope : Option (List Nat)) :
-    List Act :=
-  let mine (m : QEv) : Bool :=
-    evOwner m.kind == owner &&
-      (match scope with
-       | none => true
-       | some js => (evStack m.kind).any (fun f => js.contains f.jid))
-  let others := (c.evq.filter (fun m => m.unacked && m.id != corr && mine m)).foldl (fun acc m => insertBySlot m acc) []
-  let r := others.foldl (fun (r : List Nat × List Nat × List Nat) m =>
-    let (selfAck, listAck, failed) := r
-    if v.pending.contains m.id && !failed.contains (evSlot m).1 then
-      (m.id :: selfAck, listAck, failed ++ (evStack m.kind).map (·.jid))
-    else (selfAck, listAck ++ [m.id], failed)) ([], [], xstack.map (·.jid))
-  (r.2.1 ++ r.1).map Act.ackEv
+/-! ### a fan-out attempt fails
 
-/-- the events (ids) of execution `owner` inside the joins `scope` (`none`: all of the execution) -/
-def scopeIds (c : Cfg) (owner : Option Nat) (scope : Option (List Nat)) : List Nat :=
-  (c.evq.filter (fun m => evOwner m.kind == owner &&
-      (match scope with
-       | none => true
-       | some js => (evStack m.kind).any (fun f => js.contains f.jid)))).map (·.id)
+What the engine knows of a fan-out attempt is the join: its slots, the events it holds for them (`ids`: the event of a
+slot is registered when it is delivered), and whether the attempt is over (`dead`).  When a failure has been dealt with —
+the Retry / Catch of an enclosing Parallel / Map state took it, or the execution ended — `check_pending_results` tidies up:
+it cancels the Tasks and Waits of the attempts that are over (a cancellation reports back at once, as the error
+Task.Terminated, and acknowledges its event) and acknowledges the events held for them; attempts nested in the branches
+of a failed attempt are gone through in the same way.  What an event still on its way, or a nested state about to be
+launched, finally delivers to an attempt that is over is dropped or absorbed. -/
+
+/-- the fan-out attempts an event belongs to, innermost first -/
+def evJids : EvKind → List Nat
+  | .visit _ s _ _ => s.map (·.jid)
+  | .reenter f _ s _ => f.jid :: s.map (·.jid)
+
+/-- is the attempt on record as over: in the engine's memory, or — crash-safe protocol — durably -/
+def deadJid (q : Quirks) (c : Cfg) (v : Vol) (j : Nat) : Bool :=
+  v.joins.any (fun x => x.jid == j && x.dead) || (!q.attemptFailureForgotten && c.deadJ.contains j)
+
+def markDead (js : List Join) (jids : List Nat) : List Join :=
+  jids.foldl (fun acc j => setJoin acc { getJoin acc j with dead := true }) js
+
+/-- an event whose state is neither a Parallel nor a Map state, inside a branch: it is registered for its slot when delivered -/
+def plainVisit : EvKind → Bool
+  | .visit (.par _ _ _) _ _ _ => false
+  | .visit _ (_ :: _) _ _ => true
+  | _ => false
+
+def waitVisit : EvKind → Bool
+  | .visit (.wait _) _ _ _ => true
+  | _ => false
+
+/-- `ids`: the delivered events the engine holds for the slots of attempt `jid`, in slot order -/
+def registered (c : Cfg) (owner : Option Nat) (jid : Nat) : List QEv :=
+  (c.evq.filter (fun m => m.unacked && plainVisit m.kind && evOwner m.kind == owner && (evSlot m).1 == jid)).foldl
+    (fun acc m => insertBySlot m acc) []
+
+/-- a Task that waits for its reply, or a Wait whose timer is armed: it can be cancelled -/
+def cancellable (v : Vol) (m : QEv) : Bool :=
+  v.pending.contains m.id || (waitVisit m.kind && v.timers.contains m.id)
+
+def insertSorted (x : Nat) : List Nat → List Nat
+  | [] => [x]
+  | y :: ys => if x == y then y :: ys else if x < y then x :: y :: ys else y :: insertSorted x ys
+
+/-- `check_pending_results` while the execution goes on: in the attempts that are over (in the order they were made) first
+what can be cancelled is (each cancellation acknowledges its event), then the events held for them are acknowledged.
+`excl`: events the running handler acknowledges itself. -/
+def tidy (c : Cfg) (v : Vol) (owner : Option Nat) (excl : List Nat) : List Act × Vol :=
+  let deadJs := v.joins.filter (·.dead)
+  let deadIds := deadJs.map (·.jid)
+  -- an attempt nested (at any depth) in a branch of one that is over makes no further progress either: it is gone through
+  -- like the one that is over (the engine knows of it through the events it holds for it)
+  let nested := (c.evq.filter (fun m => m.unacked && plainVisit m.kind && evOwner m.kind == owner &&
+      ((evJids m.kind).drop 1).any (fun j => deadIds.contains j))).map (fun m => (evSlot m).1)
+  let jids := (deadIds ++ nested).foldl (fun acc x => insertSorted x acc) []
+  let regs := (jids.flatMap (registered c owner)).filter (fun m => !excl.contains m.id)
+  let ids := ((regs.filter (cancellable v)) ++ (regs.filter (fun m => !cancellable v m))).map (·.id)
+  -- (a nested attempt one of whose Tasks / Waits is cancelled is over from then on)
+  let newlyDead := ((regs.filter (cancellable v)).map (fun m => (evSlot m).1)).filter (fun j => !deadIds.contains j)
+  let v := { v with joins := markDead v.joins newlyDead.eraseDups }
+  -- (crash-safe protocol: what the joins themselves still hold — events of nested joins, replies)
+  let heldE := ((deadJs.flatMap (fun j => j.heldEv.map (·.2))).filter (fun e => !ids.contains e && !excl.contains e)).eraseDups
+  let heldR := (deadJs.flatMap (·.heldRp)).eraseDups
+  (ids.map Act.ackEv ++ heldE.map Act.ackEv ++ heldR.map Act.ackRp,
+   { v with pending := v.pending.filter (fun p => !ids.contains p), timers := v.timers.filter (fun t => !ids.contains t),
+            joins := v.joins.map (fun j => if j.dead then { j with heldEv := [], heldRp := [] } else j) })
+
+/-- `check_pending_results` once the execution has ended: every attempt is gone through.  The code walks the joins in the
+order they were made and their slots in order and cancels what waits; a cancellation reports back at once, and when it is the
+first failure its join sees it first tidies up everything else (recursively) and acknowledges its own event afterwards.  So:
+the events of the joins that had already failed (`failedJ`: those around the failing visit) and of later cancellations in
+slot order, then the first-cancelled ones, last first.  Every attempt is then on record as over. -/
+def tidyEnd (c : Cfg) (v : Vol) (owner : Option Nat) (excl : List Nat) (failedJ : List Nat) : List Act × Vol :=
+  let mine := c.evq.filter (fun m => evOwner m.kind == owner)
+  let all := (mine.filter (fun m => m.unacked && plainVisit m.kind && !excl.contains m.id)).foldl
+    (fun acc m => insertBySlot m acc) []
+  let r := all.foldl (fun (r : List Nat × List Nat × List Nat) m =>
+    let (selfAck, listAck, failed) := r
+    if cancellable v m && !failed.contains (evSlot m).1 then
+      (m.id :: selfAck, listAck, failed ++ (evStack m.kind).map (·.jid))
+    else (selfAck, listAck ++ [m.id], failed)) ([], [], failedJ ++ (v.joins.filter (·.dead)).map (·.jid))
+  let ids := r.2.1 ++ r.1
+  let jall := ((mine.flatMap (fun m => evJids m.kind)) ++ failedJ).eraseDups
+  let mineJ := v.joins.filter (fun j => jall.contains j.jid)
+  let heldE := ((mineJ.flatMap (fun j => j.heldEv.map (·.2))).filter (fun e => !ids.contains e && !excl.contains e)).eraseDups
+  let heldR := (mineJ.flatMap (·.heldRp)).eraseDups
+  -- the records are kept while something of a branch is still outstanding (an event on its way, a nested state about to be
+  -- launched); otherwise they are deleted
+  let outstanding := mine.any (fun m => !(evJids m.kind).isEmpty && !ids.contains m.id && !heldE.contains m.id && !excl.contains m.id)
+  let kept : List Join := if outstanding then jall.map (fun j => ({ jid := j, dead := true, ended := true } : Join)) else []
+  (ids.map Act.ackEv ++ heldE.map Act.ackEv ++ heldR.map Act.ackRp,
+   { v with pending := v.pending.filter (fun p => !ids.contains p), timers := v.timers.filter (fun t => !ids.contains t),
+            joins := v.joins.filter (fun j => !jall.contains j.jid) ++ kept })
 
 /-- the visit of event `ev` is over and `rest` is its outcome; `rp`: the reply that completed it (a Task visit).
 Returns the broker operations and the new volatile state.  `fuel` bounds the nesting of joins (and parent
@@ -300,25 +387,45 @@ def advance (q : Quirks) (c : Cfg) :
     let js := v.joins
     match rest, stack with
     | .fail lvl cont, stack =>
+      -- a Task / Wait handler acknowledges its own event when everything else is done; the event of any other failing state is
+      -- registered for its slot and acknowledged with the events held for the attempt
+      let selfAcked : Bool := match findEv c ev true with
+        | some m => (match m.kind with
+          | .visit (.step _) (_ :: _) _ _ => false
+          | _ => true)
+        | none => true
+      let excl : List Nat := if selfAcked then [ev] else []
+      let own (acts : List Act) : List Act := if acts.contains (.ackEv ev) then [] else [.ackEv ev]
+      let jids := stack.map (·.jid)
       let handledAt : Option Nat := match lvl with
         | some k => if k < stack.length then some k else none
         | none => none
-      match handledAt with
-      | some k =>
-        -- the `k`-th enclosing fan-out retries / catches the failure: `cont` follows at its level; what is left of
-        -- the attempt's branches is cancelled and let go, the attempt's joins are remembered as dead
-        let scope := (stack.take (k + 1)).map (·.jid)
-        let gone := scopeIds c owner (some scope)
-        let js' := (js.filter (fun j => !scope.contains j.jid)) ++ scope.map (fun j => ({ jid := j, dead := true } : Join))
-        ([.pubEv (.visit cont (stack.drop (k + 1)) false owner)] ++ failAcks c v ev stack owner (some scope) ++ [.ackEv ev] ++ ackR,
-         { v with pending := v.pending.filter (fun p => !gone.contains p),
-                  timers := v.timers.filter (fun t => !gone.contains t), joins := js' })
-      | none =>
-        -- the execution fails: everything it holds is let go
-        let gone := scopeIds c owner none
+      -- the failure goes up from join to join; an attempt that is already over absorbs it
+      let firstDead : Option Nat := (List.range stack.length).find? (fun i =>
+        match jids[i]? with
+        | some j => deadJid q c v j
+        | none => false)
+      let absorbedAt : Option Nat := match firstDead, handledAt with
+        | some i, some k => if i ≤ k then some i else none
+        | some i, none => some i
+        | none, _ => none
+      match absorbedAt, handledAt with
+      | some i, _ =>
+        let (acts, v') := tidy c { v with joins := markDead js (jids.take i) } owner excl
+        (acts ++ own acts ++ ackR, v')
+      | none, some k =>
+        -- the `k`-th enclosing fan-out state retries / catches the failure: `cont` follows at its level; the attempts up to
+        -- there are over
+        let gone := jids.take (k + 1)
+        let next : EvKind := .visit cont (stack.drop (k + 1)) false owner
+        let pub : Act := if q.attemptFailureForgotten then .pubEv next else .pubDead next gone
+        let (acts, v') := tidy c { v with joins := markDead js gone } owner excl
+        ([pub] ++ acts ++ own acts ++ ackR, v')
+      | none, none =>
+        -- the execution fails
         let endActs : List Act × Vol :=
           match owner with
-          | none => ([.note true], v)
+          | none => ([.fnote], v)
           | some p =>
             if q.childAnswerInProcess then
               if v.pending.contains p then
@@ -332,14 +439,23 @@ def advance (q : Quirks) (c : Cfg) :
                 | none => ([.cnote true], v)
               else ([.cnote true], v)
             else ([.pubAns p, .cnote true], v)
-        let v1 := endActs.2
-        (endActs.1 ++ failAcks c v ev stack owner none ++ [.ackEv ev] ++ ackR,
-         { v1 with pending := v1.pending.filter (fun p => !gone.contains p), timers := v1.timers.filter (fun t => !gone.contains t),
-                   joins := v1.joins.filter (fun j => !((c.evq.filter (fun m => gone.contains m.id)).any
-                     (fun m => (evStack m.kind).any (fun f => f.jid == j.jid)))) })
+        let (acts, v') := tidyEnd c endActs.2 owner excl jids
+        (endActs.1 ++ acts ++ own acts ++ ackR, v')
     | .done, [] =>
       match owner with
-      | none => ([.note true, .ackEv ev] ++ ackR, v)
+      | none =>
+        if js.any (·.dead) then
+          -- the execution ends while attempts that failed earlier are on record: what is left of them is tidied up
+          let (acts, v') := tidyEnd c v none [ev] []
+          ([.note true] ++ acts ++ [.ackEv ev] ++ ackR, v')
+        else if (q.attemptFailureForgotten || q.batchRelaunched) && !js.isEmpty then
+          -- the engine has other attempts on record (what a crash left of an attempt that had failed, a second launch of
+          -- a fan-out state …), none of them known to be over: the events held for them are let go, nothing is cancelled
+          let ids := (((js.map (·.jid)).foldl (fun acc x => insertSorted x acc) []).flatMap (registered c none)).map (·.id)
+          let ids := ids.filter (fun i => i != ev)
+          ([.note true] ++ ids.map Act.ackEv ++ [.ackEv ev] ++ ackR,
+           { v with joins := [], timers := v.timers.filter (fun t => !ids.contains t) })
+        else ([.note true, .ackEv ev] ++ ackR, v)
       | some p =>
         -- a child execution ends: its result answers the parent's Task
         if q.childAnswerInProcess then
@@ -355,6 +471,11 @@ def advance (q : Quirks) (c : Cfg) :
           else ([.cnote true, .ackEv ev] ++ ackR, v)
         else ([.pubAns p, .cnote true, .ackEv ev] ++ ackR, v)
     | .done, f :: outer =>
+      if deadJid q c v f.jid then
+        -- the attempt is over: the result is of no use; the event, registered for its slot, goes with what is held for the attempt
+        let (acts, v') := tidy c v owner []
+        (acts ++ (if acts.contains (.ackEv ev) then [] else [.ackEv ev]) ++ ackR, v')
+      else
       -- the branch ends: its result goes into slot `f.idx` of the join; its event is held
       let j := getJoin js f.jid
       let j := { j with filled := insertNat f.idx j.filled, heldEv := insertHeld f.idx ev j.heldEv,
@@ -366,7 +487,8 @@ def advance (q : Quirks) (c : Cfg) :
       if j.filled.length ≥ width then
         -- the join is complete: what follows the fan-out state goes on; the held events (and replies) are released
         let release : List Act := (j.heldEv.map (fun p => Act.ackEv p.2)) ++ (j.heldRp.map .ackRp)
-        let js' := dropJoin js f.jid
+        -- (the engine keeps the record of a join that has completed: whatever is delivered to it again completes it again)
+        let js' := if q.batchRelaunched then setJoin js { j with heldEv := [], heldRp := [] } else dropJoin js f.jid
         match f.rest, outer with
         | .done, g :: outer' =>
           -- a nested fan-out ends its branch: its result goes into the enclosing join
@@ -434,9 +556,35 @@ def onReply (q : Quirks) (c : Cfg) (corr : Nat) (v : Vol) : Option (List Act × 
     | _ => none
   | none => none
 
-/-- the event belongs to a fan-out attempt that has failed: it is dropped -/
-def inDeadJoin (v : Vol) (k : EvKind) : Bool :=
-  (evStack k).any (fun f => v.joins.any (fun j => j.jid == f.jid && j.dead))
+/-- does the engine have attempts of execution `owner` on record (its branch metadata, made when the first event of a branch is
+delivered or the first result arrives — not when a fan-out state launches its branches), leaving event `except` aside -/
+def hasRecords (c : Cfg) (v : Vol) (owner : Option Nat) (except : Nat) : Bool :=
+  v.joins.any (fun j => !j.filled.isEmpty || j.dead || j.ended) ||
+    c.evq.any (fun m => m.unacked && m.id != except && evOwner m.kind == owner && !(evJids m.kind).isEmpty)
+
+/-- The event is dropped (`branch_has_terminated`): it belongs to a fan-out attempt that is over, or — an event delivered for
+the first time, at the top level or when the engine has no attempt of the execution on record — to an execution whose record
+says that it has ended, or the engine has kept the attempts of the execution on record after its end. -/
+def inDeadJoin (q : Quirks) (c : Cfg) (v : Vol) (m : QEv) : Bool :=
+  (evJids m.kind).any (deadJid q c v) ||
+    ((evOwner m.kind).isNone &&
+      ((!(evJids m.kind).isEmpty && v.joins.any (·.ended)) ||
+       (c.notes > 0 && !m.redelivered && ((evJids m.kind).isEmpty || !hasRecords c v none m.id)) ||
+       (c.failed > 0 && !q.attemptFailureForgotten)))
+
+/-- … it is acknowledged; when the engine has the attempt on record the attempt is now over as well, and is tidied up -/
+def dropEv (q : Quirks) (c : Cfg) (v : Vol) (m : QEv) : List Act × Vol :=
+  match evJids m.kind with
+  | j :: _ =>
+    if v.joins.any (·.ended) then
+      -- kept after the end of the execution: when this was the last thing outstanding the records are deleted
+      let others := c.evq.any (fun x => x.id != m.id && evOwner x.kind == evOwner m.kind && !(evJids x.kind).isEmpty)
+      ([.ackEv m.id], if others then v else { v with joins := v.joins.filter (fun x => !x.ended) })
+    else if (evJids m.kind).any (deadJid q c v) then
+      let (acts, v') := tidy c { v with joins := markDead v.joins [j] } (evOwner m.kind) [m.id]
+      (Act.ackEv m.id :: acts, v')
+    else ([.ackEv m.id], v)
+  | [] => ([.ackEv m.id], v)
 
 /-- the request of a Task visit -/
 def requestOf (id : Nat) : Sk → List Act
@@ -455,7 +603,7 @@ def step (q : Quirks) (c : Cfg) (op : Op) (cut : Option Nat) : Option Cfg :=
     | some m =>
       let c := markEv c id
       let v := c.vol
-      if inDeadJoin v m.kind then some (c.handler [.ackEv id] v cut) else
+      if inDeadJoin q c v m then some (c.handler (dropEv q c v m).1 (dropEv q c v m).2 cut) else
       match m.kind with
       | .reenter _ _ _ _ => some (c.handler [] { v with timers := insertNat id v.timers } cut)
       | .visit todo stack start owner =>
@@ -497,6 +645,9 @@ def step (q : Quirks) (c : Cfg) (op : Op) (cut : Option Nat) : Option Cfg :=
     | none => none
     | some m =>
       let v := { c.vol with timers := c.timers.erase id }
+      -- (the deferred handler of a Task, Parallel or Map state looks again: the attempt may have failed since the event was
+      -- accepted; a Wait that is over does not)
+      if !waitVisit m.kind && inDeadJoin q c v m then some (c.handler (dropEv q c v m).1 (dropEv q c v m).2 cut) else
       match m.kind with
       | .reenter f from_ stack owner => some (c.handler (launch f from_ stack owner ++ [.ackEv id]) v cut)
       | .visit todo stack _ owner =>
